@@ -55,6 +55,8 @@ def pool(seed):
     P['huge'] = 1e150 * rng.normal(1.0, 1.0, L)
     P['tiny'] = 1e-150 * rng.normal(-2.0, 1.0, L)
     P['single'] = np.array([3.7])
+    P['offset'] = 1e7 + rng.normal(0.0, 1.5, L)                         # spread << mean: a one-pass variance cancels
+    P['offset5'] = -3e5 + np.linspace(-2.0, 2.0, L)[rng.permutation(L)]
     lg = rng.normal(-4.0, 3.0, 10040)
     lg[10000:] += 1e6                                                    # only a whole-array estimator sees this
     P['long'] = lg
@@ -431,7 +433,7 @@ CPAIRS = [('ramp', 'gauss'), ('ramp', 'const'), ('gauss', 'const'), ('const', 'r
 
 
 def _func_tags():
-    tags = ['ramp', 'gauss', 'const', 'two', 'huge', 'tiny', 'single', 'long']
+    tags = ['ramp', 'gauss', 'const', 'two', 'huge', 'tiny', 'single', 'long', 'offset', 'offset5']
     for v in CONSTS:
         for n in CONST_LENS:
             tags.append('c:%r:%d' % (v, n))
